@@ -182,10 +182,13 @@ def sender_case(case, stats, bad):
     signal.setitimer(signal.ITIMER_VIRTUAL, vnet.CPU_BUDGET_S)
     try:
         t_done = None
+        min_rto = sender.rto
         while env.peek() != float("inf") and env.steps < CAP:
             if env.peek() > (HORIZON if t_done is None else t_done + 2000.0):
                 break
             env.step()
+            if sender.rto < min_rto:
+                min_rto = sender.rto
             if t_done is None and sender.last_ack == size and done():
                 t_done = env.now      # keep running: "the run never raises" also holds after completion
         if t_done is not None and env.peek() == float("inf"):
@@ -231,11 +234,12 @@ def sender_case(case, stats, bad):
             bad("segment-outside-flow", "the sender transmitted a segment that is not an MSS-aligned part of the flow", l[2])
             break
     if not case["data_drops"] and not case["ack_drops"] and not case.get("data_delays") and not case.get("ack_delays") \
-            and 2 * delay < 2 * case["rtt0"]:
+            and 2 * delay < min_rto * (1 - 1e-9):
+        # premise: the round-trip time stayed below the sender's *current* RTO during the whole run
         stats["lossfree_runs"] += 1
         if retx:
             bad("retransmission-on-loss-free-path", "over a loss-free path with RTT below the RTO a segment was transmitted twice",
-                {"sent": sent[:20], "rtt": 2 * delay, "rto0": 2 * case["rtt0"]})
+                {"sent": sent[:20], "rtt": 2 * delay, "smallest_rto_during_run": min_rto})
     return dtap.applied + atap.applied + dtap.delayed + atap.delayed
 
 
